@@ -653,15 +653,23 @@ fn insert_imported_namespace(
             let mut syms = vec![];
 
             // Load all the public items into the current namespace.
-            let imported_ns = imported_ns.borrow();
-            for (sym, value) in &imported_ns.values {
-                if imported_ns.exported_syms.contains(sym) {
-                    current_ns
-                        .borrow_mut()
-                        .values
-                        .insert(sym.clone(), value.clone());
-                    syms.push(sym.clone());
-                }
+            //
+            // Collect them first: a file can import itself, in
+            // which case both namespaces are the same RefCell.
+            let exported: Vec<(SymbolName, Value)> = {
+                let imported_ns = imported_ns.borrow();
+                imported_ns
+                    .values
+                    .iter()
+                    .filter(|(sym, _)| imported_ns.exported_syms.contains(*sym))
+                    .map(|(sym, value)| (sym.clone(), value.clone()))
+                    .collect()
+            };
+
+            let mut current_ns = current_ns.borrow_mut();
+            for (sym, value) in exported {
+                current_ns.values.insert(sym.clone(), value);
+                syms.push(sym);
             }
 
             syms
